@@ -445,7 +445,7 @@ func c06Checkpoint(r *core.Run, s *sim.Sim, env *menv.Env, world *lnmodel.World,
 	{
 		lk := newLockKeys(rng)
 		for _, kind := range []string{"P2PK", "HTLC"} {
-			c := lockCfg{Kind: kind, Data: pubHex(lk.Lock), Sigflag: "SIG_ALL", Nonce: client.RandHex(rng, 16)}
+			c := lockCfg{Kind: kind, Data: pubHex(lk.Lock), NSigs: -1, Sigflag: "SIG_ALL", Nonce: client.RandHex(rng, 16)}
 			var pre *string
 			if kind == "HTLC" {
 				c.Data, c.Pubkeys, c.NSigs, pre = lk.Hash, []string{pubHex(lk.Lock)}, 1, &lk.Preimage
